@@ -27,7 +27,7 @@ decreases resolution + 1,
 proof {
     let p = marker_pos(resolution as int) as u64;
     let d = (if resolution - 1 < 2 { 1u64 } else { 2u64 });
-    bv_shr_shr(index, p, d);
+    bv_shr_step(index, p, d);
 }
 //@at loop 1 after
 proof {
